@@ -979,17 +979,103 @@ Proof.
   destruct (inv_run c Hwf h2 st1 (reach_inv c h1 Hwf)) as (_ & Hf & _). exact Hf.
 Qed.
 
+(* ---- the cache directory ---- *)
+(* [dir_ok d]: no FINAL name holds a partial stream *)
+Lemma dir_ok_rm n d : dir_ok d = true -> dir_ok (f_rm n d) = true.
+Proof.
+  unfold dir_ok, f_rm. rewrite !forallb_forall. intros H x Hx. apply filter_In in Hx. apply H, Hx.
+Qed.
+
+Lemma dir_ok_cons_tmp f d : dir_ok d = true -> dir_ok (FTmp f :: d) = true.
+Proof. intros H. exact H. Qed.
+
+Lemma fname_eqb_refl n : fname_eqb n n = true.
+Proof. destruct n; cbn [fname_eqb]; apply Nat.eqb_refl. Qed.
+
+Lemma f_mem_rm n d : f_mem n (f_rm n d) = false.
+Proof.
+  unfold f_mem, f_rm. induction d as [|x d IH]; [reflexivity|].
+  cbn [filter]. destruct (fname_eqb x n) eqn:E; cbn [negb]; [exact IH|].
+  cbn [existsb]. rewrite IH, orb_false_r.
+  destruct n, x; cbn [fname_eqb] in *; try reflexivity; rewrite Nat.eqb_sym; exact E.
+Qed.
+
+(* one file written by temporary file + rename: at EVERY point — after any number of its three operations, or
+   inside any of them — no final name holds a partial stream, and after the three the same holds again *)
+Lemma save_file_after f d :
+  dir_ok d = true -> dir_ok (apply_fops d (save_file f)) = true.
+Proof.
+  intros H. unfold apply_fops, save_file. cbn [fold_left apply_fop].
+  rewrite f_mem_rm. apply dir_ok_rm, dir_ok_rm, dir_ok_rm, dir_ok_cons_tmp, dir_ok_rm, H.
+Qed.
+
+Lemma save_files_cut fs : forall d cp,
+  dir_ok d = true -> dir_ok (cut_dir d (flat_map save_file fs) cp) = true.
+Proof.
+  induction fs as [|f fs IH]; intros d cp H.
+  - unfold cut_dir. cbn [flat_map]. rewrite firstn_nil. cbn [apply_fops fold_left].
+    destruct cp as [k|k b]; [exact H|]. destruct k; exact H.
+  - assert (H1 : dir_ok (FTmp f :: f_rm (FTmp f) d) = true) by (apply dir_ok_cons_tmp, dir_ok_rm, H).
+    assert (H2 : dir_ok (f_rm (FTmp f) (FTmp f :: f_rm (FTmp f) d)) = true) by (apply dir_ok_rm, H1).
+    pose proof (save_file_after f d H) as H3.
+    cbn [flat_map]. unfold cut_dir.
+    destruct cp as [k|k b]; cbn [cut_done].
+    + destruct k as [|[|[|k]]].
+      * exact H.
+      * exact H1.
+      * exact H2.
+      * change (save_file f ++ flat_map save_file fs) with
+          (FCreate (FTmp f) :: FWrite (FTmp f) :: FRename (FTmp f) (FFinal f) :: flat_map save_file fs).
+        cbn [firstn]. unfold apply_fops. cbn [fold_left].
+        apply (IH _ (CutAfter k)). exact H3.
+    + destruct k as [|[|[|k]]].
+      * exact H.
+      * cbn [save_file app firstn apply_fops fold_left apply_fop nth_error torn_fop]. apply dir_ok_cons_tmp, dir_ok_rm, H1.
+      * exact H2.
+      * change (save_file f ++ flat_map save_file fs) with
+          (FCreate (FTmp f) :: FWrite (FTmp f) :: FRename (FTmp f) (FFinal f) :: flat_map save_file fs).
+        cbn [firstn nth_error]. unfold apply_fops. cbn [fold_left].
+        apply (IH _ (CutInside k b)). exact H3.
+Qed.
+
+Lemma save_files_all fs : forall d, dir_ok d = true -> dir_ok (apply_fops d (flat_map save_file fs)) = true.
+Proof.
+  induction fs as [|f fs IH]; intros d H; [exact H|].
+  cbn [flat_map]. unfold apply_fops. rewrite fold_left_app. apply IH, save_file_after, H.
+Qed.
+
+(* SaveCache cut ANYWHERE — after any number of file operations, or inside the write of any file after any number
+   of bytes, whatever the directory held before (nothing: the first save; complete files: a later save; stale
+   temporary files of an earlier crash) — leaves every cache file absent or complete *)
+Theorem save_cache_cut_ok d cp : dir_ok d = true -> dir_ok (cut_dir d save_ops cp) = true.
+Proof. apply save_files_cut. Qed.
+
+Theorem save_cache_done_ok d : dir_ok d = true -> dir_ok (apply_fops d save_ops) = true.
+Proof. apply save_files_all. Qed.
+
 (* crashes and shutdowns cut anywhere never leave a cache file that is neither absent nor complete *)
-Lemma bad_files_run c h : untampered h = true -> forall st, bad_files st = [] ->
-  bad_files (fst (run_from c st h)) = [].
+Lemma bad_files_run c h : untampered h = true -> forall st, files_ok st = true ->
+  files_ok (fst (run_from c st h)) = true.
 Proof.
   induction h as [|i r IH]; intros Hu st Hf; [exact Hf|].
   cbn [untampered forallb] in Hu. apply andb_true_iff in Hu. destruct Hu as (H1 & H2).
   rewrite run_from_cons. apply IH; [exact H2|].
+  unfold files_ok in *.
   destruct i as [a|a k|cut|f]; cbn [exec_item fst bad_files]; try exact Hf.
-  - destruct (vol_of st); cbn [fst bad_files]; [|exact Hf]. destruct cut; [rewrite Hf|]; reflexivity.
+  - destruct (vol_of st); cbn [fst bad_files]; [|exact Hf].
+    destruct cut as [cp|]; [apply save_cache_cut_ok|apply save_cache_done_ok]; exact Hf.
   - discriminate H1.
 Qed.
+
+Theorem cache_files_ok_all c h : untampered h = true -> files_ok (run c h) = true.
+Proof. intros Hu. unfold run. apply (bad_files_run c h Hu fresh). reflexivity. Qed.
+
+(* why the temporary file matters: the same save writing each file IN PLACE (create the final name, write it) —
+   also if only when the file does not exist yet — is refuted by a cut inside the first write of the first save *)
+Definition save_file_in_place (f : nat) : list fop := [FCreate (FFinal f); FWrite (FFinal f)].
+Lemma in_place_first_save_torn :
+  dir_ok (cut_dir [] (flat_map save_file_in_place (seq 0 n_files)) (CutInside 1 26)) = false.
+Proof. vm_compute. reflexivity. Qed.
 
 Lemma wf_resp_shape c st sq e :
   wf_resp c st sq e = true ->
@@ -1030,8 +1116,7 @@ Theorem restart_all c h r0 :
 Proof.
   intros Hwf Hu st'.
   pose proof (reach_inv c h Hwf) as HI.
-  assert (Hf : files_ok (run c h) = true).
-  { unfold files_ok, run. rewrite (bad_files_run c h Hu fresh eq_refl). reflexivity. }
+  assert (Hf : files_ok (run c h) = true) by (apply cache_files_ok_all, Hu).
   destruct (inv_item c Hwf (run c h) (IRun (ABoot (Some r0))) HI) as (HI' & _ & _).
   fold st' in HI'.
   destruct HI as (HD & _).
